@@ -29,7 +29,21 @@ def is_subsequence(a, b):
 class P(Prop):
     id = "C04"
     design_ref = "DESIGN.md section 5, C04 and appendix A.5"
-    theorems = []
+    M = "TracklibVerif.Props.C04"
+    theorems = [
+        (M, "TV.C04.extract_spec", "extract(a,b) = exactly the observations a..b (both ends included), feature names carried"),
+        (M, "TV.C04.extractSpanTime_spec", "extractSpanTime = exactly the observations in the closed span, bounds in either order"),
+        (M, "TV.C04.concat_spec", "t1 + t2 = observations of t1 then of t2; a common feature-name table is carried"),
+        (M, "TV.C04.decimateStep_spec", "track % n = sub-sequence at the positions = 0 mod n (i-th result = (i*n)-th source)"),
+        (M, "TV.C04.decimatePattern_spec", "track % pattern = sub-sequence at the positions j with pattern[j mod len] true"),
+        (M, "TV.C04.dropFirst_spec", "track > n = all but the first n observations"),
+        (M, "TV.C04.dropLast_spec", "track < n = all but the last n observations (empty when n >= size)"),
+        (M, "TV.C04.removeByIdx_spec", "removeObsList(distinct valid indices, any order) leaves exactly the other observations, returns the count"),
+        (M, "TV.C04.removeByIdx_refuses_duplicates", "an index list with a repeated index removes nothing and returns 0"),
+        (M, "TV.C04.sort_spec", "sort with ANY sorting permutation from argsort: same records (permutation), non-decreasing times, names unchanged"),
+        (M, "TV.C04.argsort_isArgsort", "the model's argsort satisfies the sorting-permutation contract"),
+        (M, "TV.C04.sortByTime_spec", "sort as run by the driver: permutation of the records, non-decreasing times"),
+    ]
     partial = []
     open_statements = []
     modelled = ("Track.__getInsertionIndex (dichotomy + two fix-up loops), insertObs/insertObsInChronoOrder, sort (np.argsort = trusted call "
